@@ -47,6 +47,7 @@ _installed = False
 STRINGS = ['alpha', 'Ünï', 'x y', 'a,b', 'q"uote', 'semi;colon', 'pi|pe', 'tab\there', 'NA', 'null', 'None', 'n/a', 'NaN', '0',
            'true', ' lead', 'é', '-', '#hash', '1e5', "it's",
            # Latin-1 is not Windows-1252: the C1 control range and the 0xA0-0xFF letters that a "helpful" re-labelling changes
+           'flat 4 #12', 'a # b',
            'c1\x9bcsi', '\x93quoted\x94', 'euro\x80', 'nbsp\xa0here', '\xff\xfe', 'ÿþ', '¤ ¦ ¨ ´ ¸ ¼ ½ ¾']
 
 
@@ -212,7 +213,11 @@ def gen_table(rng, i):
     return {'cols': cols, 'nrows': n, 'delimiter': [',', '|', '\t', ';'][i % 4], 'encoding': ['utf-8', 'latin-1', 'utf-16'][(i // 4) % 3],
             'header': (i // 2) % 2 == 0 or rng.random() < 0.5, 'bool': spell,
             'header_decl': ['both', 'header', 'count', 'count-beside-header-true'][(i // 5) % 4],
-            'url': rng.choice(['same', 'same', 'same', 'absent', 'other-existing', 'other-missing'])}
+            'url': rng.choice(['same', 'same', 'same', 'absent', 'other-existing', 'other-missing']),
+            'dialect_extras': {k_: v_ for k_, v_ in (('commentPrefix', '#'), ('quoteChar', '"'), ('doubleQuote', True), ('skipRows', 0),
+                                                      ('skipInitialSpace', False), ('lineTerminators', ['\r\n', '\n']), ('trim', False),
+                                                      ('skipBlankRows', False), ('skipColumns', 0))
+                               if rng.random() < 0.2}}
 
 
 def run_table_case(ctx, case):
@@ -267,6 +272,8 @@ def run_table_case(ctx, case):
             col['titles'] = {'str': c['title'], 'list': [c['title'], 'another title'], 'dict': {'en': [c['title']]}}[c['titles_as']]
         columns.append(col)
     dialect = {'delimiter': t['delimiter'], 'encoding': enc}
+    for k_, v_ in (t.get('dialect_extras') or {}).items():
+        dialect[k_] = v_          # dialect properties written out at their CSVW defaults (or harmless values): no effect on the cells
     if not t['header']:
         how = t.get('header_decl', 'both')
         if how in ('both', 'header'):
